@@ -19,7 +19,31 @@ def mkSpec (kind : String) (d : Bool) (C K : Nat) (cin groups kx ky : Rat) (out 
     in_channels := ⟨cin, 0⟩, out_channels := oe, in_features := ⟨cin, 0⟩, out_features := oe,
     groups := ⟨groups, 0⟩, kernel_size := ks, output_shape := out.map (⟨·, 0⟩), hasBias := bias }
 
+/-- `fn …`: value and derivative of a registered cost function with respect to the effective
+sizes / the precision share it is shown (what the MPS, PIT and SuperNet layers hand over as tensors) -/
+def handleFn (toks : List String) : String :=
+  let q (k : String) := (field? toks k).bind parseRat?
+  let l (k : String) := (field? toks k).bind (parseList? parseRat?)
+  match field? toks "spec", field? toks "fn", q "in", q "out", q "inf", q "outf", q "theta", q "wp", q "ip",
+        q "groups", l "k", l "osh", (field? toks "bias").bind parseBool? with
+  | some spec, some fn, some cin, some cout, some inf, some outf, some th, some wp, some ip, some g, some k,
+    some osh, some bias =>
+    match (Gen.registry (α := Dual)).find? (fun e => e.spec == spec && e.fn == fn) with
+    | none => "err:unknown-function"
+    | some e =>
+      let mk (sel : Nat) : LSpec Dual :=
+        { in_channels := ⟨cin, if sel = 0 then 1 else 0⟩, out_channels := ⟨cout, if sel = 1 then 1 else 0⟩,
+          in_features := ⟨inf, if sel = 2 then 1 else 0⟩, out_features := ⟨outf, if sel = 3 then 1 else 0⟩,
+          groups := ⟨g, 0⟩, w_precision := ⟨wp, 0⟩, in_precision := ⟨ip, 0⟩, a_precision := ⟨ip, 0⟩,
+          w_theta_alpha := ⟨th, if sel = 4 then 1 else 0⟩, kernel_size := k.map (⟨·, 0⟩),
+          output_shape := osh.map (⟨·, 0⟩), hasBias := bias, has_a_precision := false }
+      let base := mk 9
+      let ds := (List.range 5).map fun i => (e.val (mk i)).d
+      s!"ok={showBool (e.ok base)} v={showRat (e.val base).v} d={showList showRat ds}"
+  | _, _, _, _, _, _, _, _, _, _, _, _, _ => "bad-request"
+
 def handle (line : String) : String :=
+  if (tokens line).head? == some "fn" then handleFn (tokens line) else
   let toks := tokens line
   let q (k : String) := (field? toks k).bind parseRat?
   let n (k : String) := (field? toks k).bind parseNat?
